@@ -2,7 +2,9 @@
 stdin = JSON list of ops; stdout ends with "\n@@RESULT@@" + JSON list of results."""
 import importlib, inspect, json, pkgutil, sys, traceback
 
+import os
 root = sys.argv[1]
+sys.path.insert(0, os.path.dirname(os.path.abspath(__file__)))
 sys.path.insert(0, root)
 
 
@@ -110,5 +112,4 @@ def main():
 
 
 if __name__ == "__main__":
-    sys.path.insert(0, __import__("os").path.dirname(__import__("os").path.abspath(__file__)))
     main()
